@@ -1,11 +1,67 @@
-# Per-property configuration of bin/check.
+# Per-property configuration of bin/check (single source of truth; MANIFEST.json is generated from it).
 #  lean:    Lean modules holding the property theorems (all `theorem`s in them are audited)
 #  gen:     model parameters regenerated from /repo's source before the proofs are re-checked
+#  hx:      harness runners: the first is the property's own direct oracle (+ its correspondence);
+#           further ones contribute only their correspondence results (model-vs-code tie of a shared model)
 #  trusted: additions to the trusted base reported in the evidence
+
+EVAL_TIE = "the evaluator model (HclModel/Expr/Eval.lean) is tied to hclsyntax/expression*.go + ops.go + go-cty by the EVAL correspondence (values with types, marks and unknowns; error/no-error) and VARS (reported roots) on generated expressions; cases outside the modelled fragment (sets, refinements of unknowns, big-float rounding, negative zero, element-type unification) are reported as unsupported and counted"
+
 PROPS = {
+    "C01": {
+        "lean": ["Props.C01"],
+        "gen": ["BinaryOps"],
+        "hx": ["C01"],
+        "trusted": [EVAL_TIE, "hclsyntax/spec.md operator table transcribed by hand (specOps)", "the Ragel scanner is not modelled: layouts reach the parser model as real token streams"],
+        "assumptions": ["operator-grammar theorems hold for every level table; the compiled table is regenerated and proved equal to the specification's"],
+        "technique": "Lean 4 proof (precedence-climbing parser round trip, generic in the regenerated operator table) + differential correspondence of the evaluator model + layout-independence oracle",
+        "level_text": "Kernel-checked: the regenerated binaryOps table equals spec.md's (decide); for every level table, a tree printed with the parentheses precedence and left-associativity require parses back to itself, and every tree has such a rendering (parenthesize). The evaluator model is validated, not proved against a second spec-shaped evaluator: the EVAL correspondence compares value+type+marks and error presence with the real evaluator on type-directed generated expressions in 3 layouts each; the direct oracle checks layout independence (AST and value) on the real parser.",
+        "level_note": "Trusted: Lean kernel; propext, Quot.sound, Classical.choice; Go harness. Partial: no theorem relates the evaluator model to a separately written spec semantics (the model is code-shaped; agreement with the code is checked by correspondence); lexing, big-float rounding, NFC not modelled.",
+    },
+    "C04": {
+        "lean": ["Props.C04"],
+        "gen": [],
+        "hx": ["C04"],
+        "trusted": ["native body model tied to hclsyntax/structure.go by the direct oracle only (no driver op yet); JSON, merged and dynblock bodies are not modelled"],
+        "assumptions": ["schemas without duplicate names; freshly parsed body (nothing hidden)"],
+        "technique": "Lean 4 proof on a model of hclsyntax.Body.Content/PartialContent + direct oracle over native, JSON, merged and expanded bodies",
+        "level_text": "Kernel-checked for native bodies: exhaustive processing returns exactly the matching items (schema order / source order) and errs iff something does not match; partial processing leaves exactly the rest visible; two-step = one-step for disjoint schemas (attributes, blocks per type in order, error presence). For the other three implementations the laws are checked by the direct oracle on the real code (k-step law, remainder law, uniformity across implementations).",
+        "level_note": "Trusted: Lean kernel; propext, Quot.sound, Classical.choice; harness. Partial: JSON / merged / dynblock bodies are covered by the oracle, not by a theorem.",
+    },
+    "C05": {
+        "lean": ["Props.C05"],
+        "gen": [],
+        "hx": ["C05", "C01"],
+        "trusted": [EVAL_TIE, "refinements of unknown values are not modelled (the property's refinement clause is covered by the direct oracle only)"],
+        "assumptions": ["function tables satisfying SoundFuncs", "strict configuration: no sub-evaluation failed"],
+        "technique": "Lean 4 proof (abstraction soundness of the evaluator model by induction over expressions) + differential correspondence + abstract-vs-concrete oracle on the real evaluator",
+        "level_text": "Kernel-checked on the evaluator model: if the abstract and a concrete evaluation are both error-free, the concrete result is consistent with the abstract one (known parts equal, unknown parts typed); an error-free evaluation in a known scope yields a wholly known value. The direct oracle runs abstract vs concrete instantiations on the real code including refinements.",
+        "level_note": "Trusted: Lean kernel; standard axioms; harness. Partial: refinements, sets and the other unsupported cases are outside the model.",
+    },
+    "C06": {
+        "lean": ["Props.C06"],
+        "gen": [],
+        "hx": ["C06", "C01"],
+        "trusted": [EVAL_TIE, "hcldec / dynblock mark propagation is covered by the direct oracle only"],
+        "assumptions": ["function tables satisfying LawfulFuncs", "strict configuration (keepKeyMarks, keepDropped)"],
+        "technique": "Lean 4 proof (noninterference of the evaluator model w.r.t. a mark) + differential correspondence + two-run oracle on the real evaluator and decoder",
+        "level_text": "Kernel-checked on the evaluator model: two scopes that differ only inside marked values give results that are equal except inside parts marked in both (under the stated side conditions); values that differ therefore carry the mark in both runs. The statement for the Go configuration is refuted by kernel-checked witnesses replayed on the code (recorded findings). The direct oracle runs the two-run check on the real evaluator, hcldec and dynblock.",
+        "level_note": "Trusted: Lean kernel; standard axioms; harness. Partial: see the side condition in Props/C06.lean; decoding is oracle-only.",
+    },
+    "C07": {
+        "lean": ["Props.C07"],
+        "gen": [],
+        "hx": ["C07", "C01"],
+        "trusted": [EVAL_TIE, "JSON expressions, hcldec.Variables and the dynblock walkers are covered by the direct oracle only"],
+        "assumptions": [],
+        "technique": "Lean 4 proof (evaluation depends only on the free variables; binders not reported) + VARS/EVAL correspondence + pruned-scope oracle",
+        "level_text": "Kernel-checked on the evaluator model, for every expression, scope and function table: value and diagnostics depend only on the reported variables (agreement on fv ⇒ equal outcome; pruning the scope to fv changes nothing); for-expression iterators and splat symbols are not reported. fv is compared with Variables() on every generated expression. The direct oracle re-evaluates real expressions, JSON expressions and bodies under pruned and perturbed scopes.",
+        "level_note": "Trusted: Lean kernel; standard axioms; harness. Partial: the body-level walkers (hcldec, dynblock) are oracle-only.",
+    },
     "C09": {
         "lean": ["Props.C09"],
         "gen": [],
+        "hx": ["C09"],
         "trusted": ["the Ragel scanner is not modelled: LexStable is a hypothesis discharged by search (window enumeration + generated configurations)",
                     "spaceAfterToken/tokenBracketChange are dumped from the compiled code over their whole finite domain and passed to the model as parameter R"],
         "assumptions": ["theorems hold for every rule table R; byte-level statements assume LexStable"],
@@ -13,6 +69,60 @@ PROPS = {
         "level_text": "Kernel-checked theorems (for every rule table): format changes only SpacesBefore, its output spacing does not depend on the input spacing, token-level idempotence; byte-level idempotence and token preservation under the LexStable hypothesis. The model is tied to hclwrite/format.go by running both on the real token streams of generated, mutated and enumerated sources (exact spacing vectors) with the rule tables dumped from the compiled code; LexStable (the unmodelled scanner) is discharged by exhaustive short-window enumeration and generated configurations through the real Format.",
         "level_note": "Trusted: Lean kernel; axioms propext, Quot.sound; the Go harness (dumper, generators, differ). Not modelled: the Ragel scanner (LexStable is searched, not proved), grapheme segmentation (widths are supplied by the harness).",
     },
+    "C11": {
+        "lean": ["Props.C11"],
+        "gen": [],
+        "hx": ["C11"],
+        "trusted": ["string-literal model tied to hclwrite.escapeQuotedStringLit and the native scanner by the direct round-trip oracle; value / traversal / key generation beyond string literals is oracle-only"],
+        "assumptions": ["unicode.IsPrint('{') = true"],
+        "technique": "Lean 4 proof (escape/unescape round trip over all Unicode strings) + generate-parse-evaluate oracle",
+        "level_text": "Kernel-checked: for every string and every printable-predicate that prints '{', the quoted-literal reader returns exactly the string that escapeQuotedStringLit was given (quotes, backslashes, controls, $/% runs before '{', astral characters); the hypothesis is shown necessary by a witness. Values, numbers, collection keys, traversals and labels are checked on the real code by generate → parse → evaluate → compare.",
+        "level_note": "Trusted: Lean kernel; propext, Quot.sound; harness. Partial: only the string-literal layer is proved; UTF-8 and NFC are not modelled.",
+    },
+    "C13": {
+        "lean": ["Props.C13"],
+        "gen": [],
+        "hx": ["C13"],
+        "trusted": ["encoding/json's string and number validators are modelled by hand (validString/validNumber) and validated by the JSON correspondence", "textseg grapheme segmentation is a parameter (adv) supplied by the harness per input"],
+        "assumptions": ["completeness needs SafeAdv (a cluster never swallows an ASCII byte); soundness holds for every segmentation"],
+        "technique": "Lean 4 proof (scanner+parser model accepts exactly the RFC 8259 grammar, with the denoted value) + differential correspondence + reference-recogniser oracle",
+        "level_text": "Kernel-checked: whatever the model of json/scanner.go + json/parser.go accepts is a JSON text denoting exactly the returned tree (any segmentation); under SafeAdv every JSON text is accepted with its value; the root-object/array rule for files. The full-strength iff (with UTF-8 validity) is refuted by a kernel-checked witness replayed on the code. The model is compared with the real parser on every generated, mutated and enumerated input (acceptance and syntax tree).",
+        "level_note": "Trusted: Lean kernel; standard axioms; harness; hand-modelled validators. Partial: UTF-8 validity and SafeAdv are exactly where the code deviates (recorded findings); full-expression (template) mode is oracle-only.",
+    },
+    "C14": {
+        "lean": ["Props.C14"],
+        "gen": [],
+        "hx": ["C14"],
+        "trusted": ["the Ragel automaton is not modelled: which bytes form which token comes from the real scanner; tiling, gap content and cluster alignment are checked on every generated input by the direct oracle"],
+        "assumptions": ["gaps contain only one-column single-byte clusters; token boundaries on cluster boundaries"],
+        "technique": "Lean 4 proof (incremental position bookkeeping = recount from the start) + direct tiling/position/range-fidelity oracle",
+        "level_text": "Kernel-checked: for every segmentation of an input into tokens and gaps, every start position and every mixture of newline and multi-byte clusters, emitToken's incremental byte/line/column equals an independent recount from the start; tokens are ordered, non-overlapping and end at the end of input. The direct oracle checks tiling, byte equality, positions and range fidelity on the real lexer in all modes, the JSON scanner and RangeScanner.",
+        "level_note": "Trusted: Lean kernel; standard axioms; harness. Partial: the scanner automaton and textseg are outside the model.",
+    },
+    "C15": {
+        "lean": ["Props.C15"],
+        "gen": ["ParserSkel"],
+        "hx": ["C15"],
+        "trusted": ["the go/ast → skeleton translator (harness/lib/genskel.go)", "absence of other Go panics and of hangs is searched by the direct oracle, not proved"],
+        "assumptions": ["callees are balanced (checked for every translated function together)"],
+        "technique": "Lean 4 proof (verified balance checker, decided on the parser's push/pop skeleton regenerated from the Go AST) + near-valid mutation fuzzing of every entry point",
+        "level_text": "Kernel-checked: balanced_sound (every terminating execution of every function of a balanced skeleton returns at its entry stack depth) and `balanced parserSkel = true` by decide on the skeleton regenerated from the current parser sources, so AssertEmptyIncludeNewlinesStack cannot fire on any path, recovery paths included. Totality, determinism, non-nil results and well-formed diagnostics of all 13 entry points are checked by mutation fuzzing with panic/hang capture.",
+        "level_note": "Trusted: Lean kernel; propext, Quot.sound; the translator; harness. Partial: only the newline-stack panic is excluded by proof.",
+    },
 }
 
-NOT_APPLICABLE = []
+# properties whose Lean model is not built yet: the direct oracle exists and runs, but no theorem decides them
+PENDING = {
+    "C02": "native structure parser model not built yet (direct oracle exists: harness/props/c02)",
+    "C03": "JSON-vs-native body equivalence model not built yet (direct oracle exists: harness/props/c03)",
+    "C08": "hcldec decode model not built yet (direct oracle exists: harness/props/c08)",
+    "C10": "writer-AST loader model not built yet (direct oracle exists: harness/props/c10)",
+    "C12": "writer edit-history model not built yet (direct oracle exists: harness/props/c12)",
+    "C16": "gohcl encode/decode pipeline model not built yet (direct oracle exists: harness/props/c16)",
+    "C17": "symbol-table isolation model not built yet (direct oracle exists: harness/props/c17)",
+    "C18": "dynblock unrolling model not built yet (direct oracle exists: harness/props/c18)",
+    "C19": "ghost-taint theorem not proved yet (direct oracle exists: harness/props/c19)",
+    "C20": "static-traversal agreement theorem not built yet (direct oracle exists: harness/props/c20)",
+}
+
+NOT_APPLICABLE = [{"property_id": k, "reason": "work in progress, not claimed yet: " + v} for k, v in sorted(PENDING.items()) if k not in PROPS]
